@@ -13,7 +13,8 @@
 (* writes configs.ndjson for the replay.                                      *)
 EXTENDS MemContract, Json, SequencesExt
 
-CONSTANTS PadFix, AppendFix
+CONSTANTS PadFix, AppendFix,
+          PoolFix      \* FALSE: decryptSymmetricAEAD returns a plaintext that lives in a pooled scratch buffer
 VARIABLES cf, c, pc
 vars == <<cf, c, pc>>
 
@@ -23,9 +24,15 @@ PadLen(n) == 16 - (n % 16)
 HasRow(x) == x.alg \in Names(AllRows)
 
 (* regions the code writes outside any explicit destination *)
+(* the pooled buffer of the previous result is refilled by the next decryption *)
+PoolWrites(x) ==
+  IF ~PoolFix /\ IsRet(x) /\ x.fn \in {"Decrypt", "DecryptSymmetric"} /\ HasRow(x) /\ Row(x.alg).fam \in {"gcm", "cbchmac"}
+  THEN {<<"result", "len">>} \cup (IF x.chain # "none" THEN {<<x.chain, "len">>} ELSE {}) ELSE {}
+
 ImplWrites(x) ==
   LET r == Row(x.alg) IN
-  IF x.fn = "padding.PadPKCS7"
+  IF IsRet(x) THEN PoolWrites(x)
+  ELSE IF x.fn = "padding.PadPKCS7"
   THEN (IF ~PadFix /\ x.path = "ok" /\ Spare(x, "buf") >= PadLen(x.len) THEN {<<"buf", "spare">>} ELSE {})
   ELSE IF ~HasRow(x) THEN {}
   ELSE IF x.fn \in {"Encrypt", "EncryptSymmetric"} /\ r.fam \in {"cbc", "cbchmac"} /\ x.path = "ok"
